@@ -65,12 +65,13 @@ package utils
 //@ func (*ProxyWriter).Flush
 //@   props C20
 //@   modifies external
-//@   ensures flush_forwarded_when_supported: calls(Flush) <= 1
+//@   ensures flush_forwarded_when_supported: calls(Flush) == ite(implements(p.w, "net/http.Flusher"), 1, 0)
 
 //@ func (*ProxyWriter).Hijack
 //@   props C20
 //@   modifies external
-//@   ensures hijack_forwarded_or_error: calls(Hijack) == 1 || result2 != nil
+//@   ensures hijack_forwarded_when_supported: implements(p.w, "net/http.Hijacker") ==> calls(Hijack) == 1 && result0 == callres(Hijack, 0, 0) && result1 == callres(Hijack, 0, 1) && result2 == callres(Hijack, 0, 2)
+//@   ensures error_when_unsupported: !implements(p.w, "net/http.Hijacker") ==> calls(Hijack) == 0 && result2 != nil
 
 // ---- C16: the default error handler maps failures to gateway statuses ----------------------------
 
